@@ -902,6 +902,14 @@ class Terms(object):
             kind = {ast.ListComp: "listcomp", ast.SetComp: "setcomp",
                     ast.GeneratorExp: "genexp",
                     ast.DictComp: "dictcomp"}[type(e)]
+            if len(gens) == 1 and not gens[0][1]:
+                # a comprehension over a comprehension: its elements were
+                # already substituted, so it ranges over the inner one's
+                # generators
+                inner = gens[0][0]
+                inner = inner[2] if inner[0] == "new" else inner
+                if inner[0] in ("listcomp", "genexp", "setcomp"):
+                    gens = list(inner[2])
             return (kind, elt, tuple(gens))
         if isinstance(e, ast.Starred):
             return ("star", T(e.value, node, env))
